@@ -34,14 +34,20 @@ import (
 
 func TestMain(m *testing.M) { stats.Main(m) }
 
-func draw(t *rapid.T) sim.ChainCase {
+func draw(t *rapid.T) sim.ChainCase { return drawWith(t, false) }
+
+// drawConc: the concurrent unit runs under the race detector with up to 16 goroutines per block; transactions with
+// hundreds of inputs or outputs add minutes there and nothing to the schedule space
+func drawConc(t *rapid.T) sim.ChainCase { return drawWith(t, true) }
+
+func drawWith(t *rapid.T, noBig bool) sim.ChainCase {
 	max := 26
 	if stats.EnvInt("C09_SMALL", 0) == 1 {
 		max = 14
 	}
 	g := sim.GenChain(t, sim.GenOpts{
 		Net:       sim.NetOpts{MaxForkHeight: rapid.SampledFrom([]int{4, 10, 20}).Draw(t, "forkSpan"), V2Only: rapid.IntRange(0, 2).Draw(t, "v2only") == 0},
-		MinBlocks: 6, MaxBlocks: max, Reorgs: false, StrayProofs: true, Profile: sim.Profile{Contracts: 1, MaxTxns: 6},
+		MinBlocks: 6, MaxBlocks: max, Reorgs: false, StrayProofs: true, NoBig: noBig, Profile: sim.Profile{Contracts: 1, MaxTxns: 6},
 		BeforeApply: func(g *sim.Gen, honest types.Block, bs consensus.V1BlockSupplement) {
 			if rapid.IntRange(0, 3).Draw(g.T, "probeHere") == 0 {
 				g.NewAdv(honest).AuthProbes(1)
@@ -721,6 +727,6 @@ var checkConc = checkWith(func(i int) int { return 2 + (i*5)%15 })
 
 func TestPure(t *testing.T)             { stats.Prop(t, draw, checkSeq) }
 func TestReplayPure(t *testing.T)       { stats.Replay(t, "TestPure", checkSeq) }
-func TestConcurrent(t *testing.T)       { stats.Prop(t, draw, checkConc) }
+func TestConcurrent(t *testing.T)       { stats.Prop(t, drawConc, checkConc) }
 func TestReplayConcurrent(t *testing.T) { stats.Replay(t, "TestConcurrent", checkConc) }
 func TestRegress(t *testing.T)          { stats.Regress(t, "TestPure", checkSeq) }
